@@ -543,7 +543,9 @@ impl Local {
     #[inline]
     pub(crate) fn acquire_handle(&self) {
         let handle_count = self.handle_count.get();
-        debug_assert!(handle_count >= 1);
+        // A participant obtained through the fallback registration of `cs()` (after the thread's
+        // `HANDLE` has been destroyed) has no handle at all: it is kept alive by its guard alone.
+        debug_assert!(handle_count >= 1 || self.guard_count.get() >= 1);
         self.handle_count.set(handle_count + 1);
     }
 
